@@ -289,6 +289,11 @@ class ScalarFuncs:
     @_scalar_func_decorator
     def sum(cur_sum, next_val, count):
         if count:
+            # a null stays null: NaN does so by itself, the integer sentinel (NaT) does not
+            if is_null(cur_sum):
+                return cur_sum, count + 1
+            if is_null(next_val):
+                return next_val, count + 1
             return cur_sum + next_val, count + 1
         else:
             return next_val, count + 1
